@@ -2,7 +2,7 @@
 # usage: tools/try_seed.sh <patch.diff> <property id> [more property ids...]
 # applies a seeded change to /repo, runs the quick checks, and ALWAYS reverts.
 patch="$1"; shift
-R=/tmp/seedrepo; export VERIF_REPO=$R
+R=${SEEDREPO:-/tmp/seedrepo}; export VERIF_REPO=$R
 cd /verif
 if ! git -C $R diff --quiet; then echo "/repo has uncommitted changes; refusing"; exit 2; fi
 git -C $R apply "$patch" || { echo "patch does not apply"; exit 2; }
